@@ -26,7 +26,7 @@ struct Pkg {
     modules: Vec<(String, String, String)>,
 }
 
-const MOD_NAMES: &[&str] = &["util", "shared", "core/list", "a", "deep/er/m"];
+const MOD_NAMES: &[&str] = &["util", "shared", "core/list", "a", "a/b", "deep/er/m"];
 
 fn gen_packages(rng: &mut Rng) -> Vec<Pkg> {
     // 0 = app (root project), then registry deps under app/build/packages, path deps as siblings
@@ -38,7 +38,14 @@ fn gen_packages(rng: &mut Rng) -> Vec<Pkg> {
             pkgs.push(Pkg { name: name.clone(), dir: format!("app/build/packages/{name}"), deps: vec![], external: true, modules: vec![] });
         } else {
             let name = format!("lib{k}");
-            pkgs.push(Pkg { name: name.clone(), dir: name.clone(), deps: vec![], external: false, modules: vec![] });
+            // a path dependency may sit beside the project, inside it (a nested root: its files
+            // belong to it, not to the project around it) or in a directory of another name
+            let dir = match rng.below(4) {
+                0 => format!("app/vendor/{name}"),
+                1 => format!("libs/dir_of_{k}"),
+                _ => name.clone(),
+            };
+            pkgs.push(Pkg { name: name.clone(), dir, deps: vec![], external: false, modules: vec![] });
         }
     }
     let n = pkgs.len();
@@ -361,7 +368,7 @@ pub fn gen_session(seed: u64, run: u64, _thorough: bool) -> Session {
             "deps_late": deps_late,
             "packages": n_pkgs,
             "order_kind": order_kind,
-            "shape": pkgs.iter().map(|p| format!("{}{}:{:?}:{}", if p.external { "r" } else { "l" }, p.modules.len(), p.deps, p.modules.iter().map(|m| if m.1.starts_with("test") { 't' } else if m.0.contains('/') { 'n' } else { 's' }).collect::<String>())).collect::<Vec<_>>().join(";"),
+            "shape": pkgs.iter().map(|p| format!("{}{}:{:?}:{}", if p.external { "r" } else if p.dir.starts_with("app/") { "n" } else if p.dir.starts_with("libs/") { "d" } else { "l" }, p.modules.len(), p.deps, p.modules.iter().map(|m| if m.1.starts_with("test") { 't' } else if m.0.contains('/') { 'n' } else { 's' }).collect::<String>())).collect::<Vec<_>>().join(";"),
         }),
     }
 }
